@@ -209,6 +209,19 @@ def run_one(yaw, root, n, fmt, L, CS, W, dtype, has_w, has_z, degrees, mode, gro
         kw["patch_num"] = 2
         kw["probe_size"] = 20
     cache = work / "cache"
+    if sum(map(ord, str(n))) % 3 == 0:
+        # the cache directory has a HISTORY in this process: another catalog (other records, one more of them) was created
+        # there and read completely; the creation under test then replaces it (overwrite=True) and must hold the new input only
+        import shutil
+
+        try:
+            old = {k: v for k, v in kw.items() if k not in ("chunksize", "max_workers", "progress")}
+            prior = yaw.Catalog.from_dataframe(cache, write_source("frame", base_columns(L + 1, 7000 + L, dtype, degrees), work), **old, max_workers=1)
+            got_records(prior, has_w, has_z)
+            got_records(yaw.Catalog(cache, max_workers=1), has_w, has_z)
+            kw["overwrite"] = True
+        except Exception:  # noqa: BLE001 - the prior catalog is not the subject
+            shutil.rmtree(cache, ignore_errors=True)
 
     def main():
         if fmt == "frame":
